@@ -187,7 +187,7 @@ CHECKS = {
     "C15": dict(cat="exploration", tech="bounded-exhaustive enumeration of message serialise/deserialise round trips",
                 text="Every host-to-controller and controller-to-host message type is serialised and deserialised by the real code "
                      "for every value of each field's boundary lattice (complete for 8-bit fields) against two backgrounds, every "
-                     "Signal/ErrorCode member, all returned arrays of length 0..4 (thorough 0..6) over {None,0,1,-1,INT_MAX,INT_MIN} "
+                     "Signal/ErrorCode member, all returned arrays of length 0..5 (thorough 0..6) over {None,0,1,-1,INT_MAX,INT_MIN} "
                      "and every single-None / single-defined pattern of lengths 5..64; fields are compared with an independently "
                      "written field list, None must stay None. In addition every sequence of up to 3 (thorough 4) operations on one "
                      "real message object per type (serialise, len, str, set a field, edit or replace the value list) is run and the "
@@ -195,8 +195,8 @@ CHECKS = {
                 note="32-bit fields on the boundary lattice; values inside declared widths",
                 ref="3/C15"),
     "C16": dict(cat="exploration", tech="bounded-exhaustive enumeration of out-of-range operands over three entry routes",
-                text="For every instruction class of every flavour, every operand field is given every value of a just-outside / "
-                     "far-outside list against two backgrounds, through direct construction (fresh objects, and objects that were encoded before and then changed in place), through the text assembler and "
+                text="For every instruction class of every flavour, every operand field is given every value of a contiguous band on both sides of its range "
+                     "(40-300 values each) and all +-2^k, +-2^k+-1 up to 2^71 against two backgrounds, through direct construction (fresh objects, and objects that were encoded before and then changed in place), through the text assembler and "
                      "through SDK calls (rotation numerators/denominators, measurement basis rotations, array initial values, "
                      "literals, loop bounds, app id through constructor / setter / instantiate()); the oracle is 'encoding raises, or the bytes decode to exactly the requested program', "
                      "so a future widening of a field is not an alarm but a silent truncation is.",
@@ -205,8 +205,8 @@ CHECKS = {
     "C17": dict(cat="exploration", tech="bounded-exhaustive enumeration of print/parse round trips on the real printer and text parser",
                 text="Every instruction class of every flavour is printed with str() and parsed back with that flavour for every "
                      "value of every operand field against two backgrounds and all field pairs over reduced domains (negative "
-                     "integers, array entries and slices with every register as index included); all sequences up to length 2 "
-                     "(thorough 3) over one representative per operand shape go text -> binary -> text -> parse and must be stable; per class, "
+                     "integers, array entries and slices with every register as index included); all sequences up to length 3 "
+                     "over one representative per operand shape go text -> binary -> text -> parse and must be stable; per class, "
                      "print / change operands in place / print again and parse / change the result in place / parse again must reflect the current operands and the text.",
                 note="operands in range; 32-bit integers on the boundary lattice",
                 ref="3/C17"),
